@@ -238,23 +238,13 @@ class Tokenizer:
 
     def get_lines(self, line_numbers: list[int]) -> list[str]:
         """Retrieve source lines corresponding to line numbers."""
-        if self._lines:
-            lines = self._lines
-        else:
-            n = len(line_numbers)
-            lines = {}
-            count = 0
-            seen = 0
+        if not self._lines and self._path:
+            # read once: every '=' debug field of an f-string asks for lines, and re-reading the file from its first
+            # line each time is quadratic in the number of such fields
             with open(self._path, encoding="utf-8") as f:
-                for line in f:
-                    count += 1
-                    if count in line_numbers:
-                        seen += 1
-                        lines[count] = line
-                        if seen == n:
-                            break
+                self._lines = dict(enumerate(f, 1))
 
-        return [lines.get(n, "") for n in line_numbers]
+        return [self._lines.get(n, "") for n in line_numbers]
 
     def mark(self) -> Mark:
         return self._index
